@@ -1,5 +1,6 @@
 import WmModel.Props.C07Locks
 import WmModel.Props.C11
+import WmModel.Props.C11Reg
 #print axioms Wm.GcTopic.exactly_one_sender
 #print axioms Wm.GcTopic.sender_count_eq
 #print axioms Wm.GcTopic.mid_publish
@@ -8,3 +9,9 @@ import WmModel.Props.C11
 #print axioms Wm.GcReg.writers_exclusive
 #print axioms Wm.GcReg.topic_mutex_exclusive
 #print axioms Wm.GcReg.publish_and_subscribe_regions_exclusive
+#print axioms Wm.GcReg.registry_exactly_one_sender
+#print axioms Wm.GcReg.registry_mid_publish
+#print axioms Wm.GcReg.registry_sender_count_eq
+#print axioms Wm.GcReg.publish_sends_whole_batch
+#print axioms Wm.GcReg.subscription_registered_once
+#print axioms Wm.GcReg.c11_witness
